@@ -246,6 +246,69 @@ fn lattice(seed: u64, idx: u64, variant: u64, stats: &mut Vec<(String, usize)>) 
     finish(w, rec, r, stats);
 }
 
+/// Back-fill lattice: a short scanned prefix, then a chain-tip range scanned FIRST that spends
+/// notes received in the gap (their nullifiers are parked in the nullifier map), then the gap
+/// back-filled in ONE batch of length `l` starting at the fully-scanned frontier: for `l` >= 102 the
+/// tracking floor is active while every received note still has to be looked up in the map.
+/// Every gap block receives a note (pools and accounts rotating), so receipts sit at every
+/// distance from the batch end; all of them are spent in the tip range.
+fn backfill(seed: u64, idx: u64, l: usize, variant: u64, stats: &mut Vec<(String, usize)>) {
+    if let Ok(v) = std::env::var("C01_ONLY") {
+        if v.parse::<u64>().ok() != Some(idx) {
+            return;
+        }
+    }
+    let mut r = Rng::new(seed, 1000 + idx);
+    let mut w = World::new(rng_from(seed, 5000 + idx), 2);
+    let mut rec = Rec::new();
+    let a = [1usize, 2, 3][(variant % 3) as usize];
+    let p = ChainParams { busy_pct: 50, max_txs: 2, foreign_pct: 20, spend_pct: 40 };
+    w.gen_blocks(&mut r, a, &p);
+    let mut gap_notes: Vec<u32> = vec![];
+    for j in 0..l {
+        let pool = Pool::ALL[(j + variant as usize) % 3];
+        let mut outs = vec![OutSpec { owner: Some(j % 2), pool, value: 10_000 + j as u64, internal: j % 5 == 0 }];
+        if j % 7 == 3 {
+            outs.push(OutSpec { owner: None, pool: Pool::Sapling, value: 5, internal: false });
+        }
+        let h = w.push_block(&[TxSpec { spends: vec![], outs, foreign_spends: (j % 4 == 1) as usize }]);
+        gap_notes.push(w.block(h).unwrap().txs[0].outs[0].nf);
+    }
+    // the tip range: 8 blocks x 2 transactions spending all gap notes
+    let k = 8usize;
+    let per_tx = (l + 2 * k - 1) / (2 * k);
+    let mut it = gap_notes.chunks(per_tx);
+    for _ in 0..k {
+        let mut txs = vec![];
+        for _ in 0..2 {
+            if let Some(ch) = it.next() {
+                txs.push(TxSpec {
+                    spends: ch.to_vec(),
+                    outs: vec![OutSpec { owner: Some(0), pool: *r.pick(&Pool::ALL), value: 30_000, internal: true }],
+                    foreign_spends: 0,
+                });
+            }
+        }
+        w.push_block(&txs);
+    }
+    let tip = w.tip_height();
+    let gap_from = BASE + a as u32;
+    let tip_from = gap_from + l as u32;
+    if variant % 2 == 0 {
+        do_tip(&mut w, &mut rec, tip);
+    }
+    do_scan(&mut w, &mut rec, BASE, a);
+    // the tip range first (in one or two batches), then the gap in one batch
+    if variant % 4 < 2 {
+        do_scan(&mut w, &mut rec, tip_from, k);
+    } else {
+        do_scan(&mut w, &mut rec, tip_from + 3, k - 3);
+        do_scan(&mut w, &mut rec, tip_from, 3);
+    }
+    do_scan(&mut w, &mut rec, gap_from, l);
+    finish(w, rec, r, stats);
+}
+
 struct Plan {
     len: usize,
     max_batch: u32,
@@ -419,12 +482,13 @@ fn rewind(w: &mut World, rec: &mut Rec, r: &mut Rng, plan: &Plan, p: &ChainParam
 enum Job {
     Hist(u64, Plan),
     Lat(u64, u64),
+    Back(u64, usize, u64),
 }
 
 fn main() {
     let a = args();
     quiet_panics();
-    let (n_short, n_long) = if a.search { (60, 16) } else if a.thorough() { (220, 60) } else { (20, 4) };
+    let (n_short, n_long) = if a.search { (60, 16) } else if a.thorough() { (220, 60) } else { (18, 3) };
     let mut rr = Rng::new(a.seed, 7);
     let mut idx = 0u64;
     let mut jobs: Vec<Job> = vec![];
@@ -455,6 +519,12 @@ fn main() {
         jobs.push(Job::Lat(idx, v + a.seed % 20));
         idx += 1;
     }
+    let n_back = if a.search { 10 } else if a.thorough() { 25 } else { 5 };
+    for v in 0..n_back {
+        let l = [100usize, 101, 102, 113, 150][(v % 5) as usize];
+        jobs.push(Job::Back(idx, l, v / 5 + v + a.seed % 12));
+        idx += 1;
+    }
     // histories are independent (own wallet, own PRNG streams derived from the seed and the
     // history index): run them on a few threads, print in index order
     let seed = a.seed;
@@ -472,6 +542,7 @@ fn main() {
                 match &jobs[i] {
                     Job::Hist(idx, plan) => history(seed, *idx, plan, &mut st),
                     Job::Lat(idx, v) => lattice(seed, *idx, *v, &mut st),
+                    Job::Back(idx, l, v) => backfill(seed, *idx, *l, *v, &mut st),
                 }
                 let lines = OUT.with(|o| std::mem::take(&mut *o.borrow_mut()));
                 results.lock().unwrap()[i] = Some((lines, st));
